@@ -53,7 +53,7 @@ def synthetic(rng):
     ny, nx = int(rng.integers(2, 9)), int(rng.integers(2, 9))
     dx, dy = float(rng.uniform(1, 30)), float(rng.uniform(1, 30))
     vclass = str(rng.choice(["serial", "random", "denormal", "huge", "tiny", "zeros", "float32", "negzero_nan_free", "max"]))
-    tskind = str(rng.choice(["str", "int", "int_hours", "labels", "descending"]))
+    tskind = str(rng.choice(["str", "int", "int_hours", "labels", "descending", "numeric_strings", "datetimes"]))
     forcing = str(rng.choice(["ustar", "z0"]))
     hetero = bool(three and rng.random() < 0.5)
     names = [str(x) for x in rng.permutation(["zeta", "Alpha", "mid", "beta-2"])[:nt]]
@@ -74,8 +74,15 @@ def synthetic(rng):
         met["timestamps"] = ["morning", "noon", "evening", "night"][:ns]
     elif tskind == "descending":
         met["timestamps"] = [f"2024-03-{28 - i:02d}" for i in range(ns)]
+    elif tskind == "numeric_strings":  # labels that read as numbers but are not written the way str(number) writes them (HHMM, run ids)
+        met["timestamps"] = [str(v) for v in rng.permutation(["0030", "007", "1e3", "12.0", "0900", "+5", "1_0"])[:ns]]
+    elif tskind == "datetimes":        # what PyYAML makes of an unquoted date-time
+        import datetime as _dt
+
+        met["timestamps"] = [_dt.datetime(2024, 3, 1 + i, 9, 30) for i in range(ns)]
     cfg = parse_config_dict({
-        "domain": {"nx": nx, "ny": ny, "xmax": nx * dx, "ymax": ny * dy, "nz": 4, "ref_lat": 50.0, "ref_lon": 11.0},
+        # a quarter of the configurations have no geographic reference origin (it is optional)
+        "domain": dict({"nx": nx, "ny": ny, "xmax": nx * dx, "ymax": ny * dy, "nz": 4}, **({} if (nx + ny + nt) % 4 == 0 else {"ref_lat": 50.0, "ref_lon": 11.0})),
         "towers": towers, "met": met, "solver": {"closure": str(rng.choice(["MOST", "MOSTM", "CONSTANT"]))},
     })
     x, y = np.arange(nx) * dx, np.arange(ny) * dy
